@@ -537,9 +537,14 @@ def predict (st : St) (hist : String → List Ca) (h : String) (s : Sys) (detail
       let ents ← entsJ.mapM fun e => do
         let prcn ← rcnOf (jstr (jget e "resource_class_name"))
         let res := (parseRes (jget e "resources")).1
-        -- the parent's own name for the class (mapping)
+        -- the parent's own name for the class: the entitlement's name was produced from a class
+        -- of the parent with `name_for_parent_rcn` (not the inverse of `parent_name_for_rcn` when
+        -- a mapping names a class the parent does not have)
         let myRcn := match get pca.children me with
-          | some c => c.nameInParent prcn
+          | some c =>
+            match pca.classes.find? (fun q => c.nameForChild q.1 == prcn) with
+            | some q => q.1
+            | none => c.nameInParent prcn
           | none => prcn
         let (listed, nas) := parentView pca me myRcn
         pure (prcn, res, listed, nas)
@@ -637,8 +642,8 @@ def badPublished (s : Sys) : List KeyId :=
 def staleDetail (seen : List (String × KeyId)) (h : String) (ks : List KeyId) : String :=
   if !ks.isEmpty && ks.all (fun k => seen.contains (h, k)) then ":stale-suspended" else ""
 
-/-- The F-C04-1 input class: a parent maps a child's class name to a class it does not have
-while the child has a revocation request pending under that parent. -/
+/-- The F-C04-1 / F-C04-3 input class: a parent maps a child's class name to a class it does not
+have. -/
 def revokeMappedMissing (model : List (String × Sys)) : Bool :=
   model.any fun (_, ps) =>
     ps.ca.children.any fun (_, chd) => chd.rcnMap.any fun (n, _) => !(get ps.ca.classes n).isSome
@@ -671,7 +676,8 @@ def oracle (st : St) (op : List String) (ret : String) (cmds : List Json)
       if c02 && ret.startsWith "ok" && !mine.isEmpty &&
           normCa (lookupSys pre h).ca == normCa (lookupSys post h).ca then
         let unexpected := mine.all fun c => (jarr (jget c "events")).all fun e => jstr (jget e "type") == "unexpected_key_found"
-        [s!"SyncIdempotent" ++ (if unexpected then ":unexpected-key-loop" else "") ++ s!"@{h}"]
+        [s!"SyncIdempotent" ++ (if unexpected then ":unexpected-key-loop" else "") ++
+          (if unexpected && revokeMappedMissing post then ":mapping-to-missing-class" else "") ++ s!"@{h}"]
       else []
     | _ => []
   -- per command of a CA: activation keeps all products; a finished roll removes the old key at the parent
@@ -709,7 +715,10 @@ def oracle (st : St) (op : List String) (ret : String) (cmds : List Json)
                 if ps.ca.classes.any (fun (_, prc) =>
                     (get prc.certs.issued o.id).isSome || (get prc.certs.suspended o.id).isSome) then
                   let mapped := ps.ca.children.any fun (_, chd) => !chd.rcnMap.isEmpty
-                  acc ++ [s!"OldKeyGoneAtParent" ++ (if mapped then ":mapped-class" else "") ++ s!"@{ph}"]
+                  let missing := ps.ca.children.any fun (_, chd) =>
+                    chd.rcnMap.any fun (n, _) => !(get ps.ca.classes n).isSome
+                  acc ++ [s!"OldKeyGoneAtParent" ++
+                    (if missing then ":mapping-to-missing-class" else if mapped then ":mapped-class" else "") ++ s!"@{ph}"]
                 else acc) acc
           | _ => acc) []
       else []
